@@ -112,6 +112,9 @@ def run_loss(rep, tier, seed, script, judge_ops, sizes=None, classes=None):
         nchunk = mc.NPROC * 2
         chunks = [behs[i::nchunk] for i in range(nchunk)]
         jobs = [(header, c, seed % 100000 + 17 * i, {"judge_ops": judge_ops, "classes": classes}, pool) for i, c in enumerate(chunks) if c]
+        # a few behaviours on the default (Cython) compile back-end: one extra job per size
+        ncy = 2 if quick else 6
+        jobs.append((header, behs[:ncy], seed % 100000 + 991, {"judge_ops": judge_ops, "classes": classes, "cython": True}, pool))
         for out in mc.pool_map(rl.worker, jobs):
             for r in out:
                 if r.get("machinery"):
@@ -123,6 +126,9 @@ def run_loss(rep, tier, seed, script, judge_ops, sizes=None, classes=None):
                 for op, k in r.get("judged", {}).items():
                     rep.cov.setdefault("calls_judged", {})
                     rep.cov["calls_judged"][op] = rep.cov["calls_judged"].get(op, 0) + k
+                if r.get("backend"):
+                    rep.cov.setdefault("backends", {})
+                    rep.cov["backends"][r["backend"]] = rep.cov["backends"].get(r["backend"], 0) + 1
                 if r.get("class"):
                     rep.cov.setdefault("classes", {})
                     rep.cov["classes"][r["class"]] = rep.cov["classes"].get(r["class"], 0) + 1
